@@ -127,6 +127,13 @@ def check(ctx):
                 after = lay[idx + 1:]
                 subs = {sg[1]: len(sg[2]) for sg in after if sg[0] == "sub"}
                 loose = [sg for sg in after if sg[0] != "sub"]
+                # a field appended as it is (a local that names self.f, measured with len() of that same local)
+                for t in list(extra):
+                    if t[0] == "len" and isinstance(t[1], tuple) and t[1][0] == "field":
+                        m = [sg for sg in loose if sg[0] == "raw" and sg[1] == t[1]]
+                        if len(m) == 1:
+                            extra.remove(t)
+                            loose.remove(m[0])
                 ok = not extra and not loose and set(measured) == set(subs) and all(measured[k] == subs[k] for k in subs)
                 ctx.ob("S2", "%s remaining length = size of exactly the buffers that follow" % name, ok, where=w, function=encfn,
                        construct="mqtt.pdu.%s/remlen" % name,
